@@ -342,6 +342,7 @@ pub enum BoardValidationError {
     InvalidCastleRights,
     InvalidEnpassant,
     TooManyPieces,
+    OpponentInCheck,
 }
 
 #[derive(Debug, Clone, Copy, PartialEq, Eq)]
@@ -399,6 +400,26 @@ impl Board {
 
         self.validate_en_passant()?;
         self.validate_castle_rights()?;
+        self.validate_opponent_not_in_check()?;
+
+        Ok(())
+    }
+
+    /// The side that is not to move may not be in check: the side to move could capture the king
+    fn validate_opponent_not_in_check(&self) -> Result<(), BoardValidationError> {
+        let king = self.king_sq(!self.turn);
+        let all = self.raw.all();
+        let queens = self.raw[Piece::Queen];
+
+        let attackers = (chess_lookup::rook_moves(king, all) & (self.raw[Piece::Rook] | queens))
+            | (chess_lookup::bishop_moves(king, all) & (self.raw[Piece::Bishop] | queens))
+            | (chess_lookup::knight_moves(king) & self.raw[Piece::Knight])
+            | (chess_lookup::king_moves(king) & self.raw[Piece::King])
+            | (chess_lookup::pawn_attacks_moves(king, !self.turn) & self.raw[Piece::Pawn]);
+
+        if (attackers & self.raw[self.turn]).any() {
+            return Err(BoardValidationError::OpponentInCheck);
+        }
 
         Ok(())
     }
